@@ -49,4 +49,49 @@ def jobs(tier):
       BUF_IN + ["gk", "s", "cc"], cls="B", bound=WR_BOUND + ", cc<=16", cbmc=LIBLOOPS)
     J("canary.buffer.roundtrip.chars", "buffer_wr_h.c", "h_rt_chars", ["bufWrChars", "bufRdChars"], BUF_IN + ["gk", "s", "cc"],
       kind="canary", defs=["-DCANARY_rtchars"], cbmc=LIBLOOPS)
+
+    # ---- foam.c: the portable re-expression of wide machine integers ------------------------------------------------
+    OB = ["--object-bits", "12"]
+    SR_UNW = OB + ["--unwindset", "foamSIntReduce.0:2,foamSIntReduce.1:4,foamSIntReduce.2:4,foamSIntReduce.3:3", "--unwinding-assertions"]
+    # functional checks only: foamNew(FOAM_BCall, 3, FOAM_BVal_SIntShiftUp, ...) passes an int through "..." and reads it
+    # with va_arg(argp, Foam) -- a pointer-check failure in the REAL foamNew (reported separately, not a C05 obligation);
+    # the evaluator reads the builtin tag back as an int.
+    SR_CHECKS = ["--no-standard-checks", "--no-malloc-may-fail", "--div-by-zero-check"]
+    SR_FNS = ["foamSIntReduce", "foamNew", "foamNewEmpty", "foamNewAlloc", "longIsInt32"]
+    SR_ASS = ["foamInit() already ran (foamIsInit forced): it only interns tag names and registers formatters",
+              "FOAM nodes are allocated as whole union foam objects (struct hack, README); memory safety of foamNew's varargs is NOT claimed in this job"]
+    if tier == "thorough":
+        # loops bounded by the constant hunks = 3: complete for all 2^64 values; symex of the union foam stores takes ~5 min
+        J("foam.foamSIntReduce.all_2^64_values", "foam_h.c", "h_foamSIntReduce", SR_FNS, ["v"], cbmc=SR_UNW, checks=SR_CHECKS,
+          timeout=1800, assumed=SR_ASS)
+        J("canary.foam.foamSIntReduce", "foam_h.c", "h_foamSIntReduce", SR_FNS, ["v"], kind="canary", defs=["-DCANARY_reduce"],
+          cbmc=SR_UNW, checks=SR_CHECKS, timeout=1800)
+    # ---- foam.c: integer formats and the tag byte (loop-free, full domains) ---------------------------------------------
+    J("foam.FOAM_PUT_INT_GET_INT.every_format", "foam_h.c", "h_foam_put_get_int", ["bufPutSInt", "bufPutByte", "bufGetSInt", "bufGetByte"],
+      BUF_IN + ["fmt", "v"], cls="B", bound=WR_BOUND, cbmc=OB)
+    J("canary.foam.FOAM_PUT_INT_GET_INT", "foam_h.c", "h_foam_put_get_int", [], BUF_IN + ["fmt", "v"], kind="canary",
+      defs=["-DCANARY_putget"], cbmc=OB)
+    J("foam.FOAM_FORMAT_FOR", "foam_h.c", "h_foam_format_for", [], ["n"], cbmc=OB)
+    J("foam.tag_byte.put_get_remove_and_range", "foam_h.c", "h_foam_tag_byte", ["foamTagLimit"], ["tag", "fmt", "byte"], cbmc=OB)
+    # ---- foam.c: one node through the real foamToBuffer / foamFrBuffer ---------------------------------------------------
+    RT_FNS = ["foamToBuffer", "foamFrBuffer", "foamTagFormat", "foamSIntReduce", "foamNewEmpty", "foamNewAlloc", "bufNew"]
+    NODE = [("Bool", "((v)==0||(v)==1)", "v in {0,1}"),
+            ("Char.signed_range", "((v)>=-128&&(v)<=127)", "v in -128..127"),
+            ("Char.128_255", "((v)>=128&&(v)<=255)", "v in 128..255"),
+            ("Byte.signed_range", "((v)>=-128&&(v)<=127)", "v in -128..127"),
+            ("Byte.128_255", "((v)>=128&&(v)<=255)", "v in 128..255"),
+            ("HInt", "((v)>=0&&(v)<=65535)", "v in 0..65535"),
+            ("SInt", "SPEC_FITS_SINT4(v)", "v in int32 (wider values: foamSIntReduce)"),
+            ("Word", "SPEC_FITS_SINT4(v)", "v in int32")]
+    for nm, dom, txt in NODE:
+        tag = "FOAM_" + nm.split(".")[0]
+        if nm == "SInt":          # foamToBuffer sends SInt nodes through foamSIntReduce: its symex alone is ~5 min
+            if tier == "thorough":
+                J("foam.roundtrip.one_node.SInt", "foam_h.c", "h_rt_node", RT_FNS, ["v"], cls="B", bound="one node, " + txt,
+                  defs=["-DV_TAG=" + tag, "-DV_DOM(v)=" + dom], cbmc=SR_UNW, checks=SR_CHECKS, timeout=2400, assumed=SR_ASS)
+            continue
+        J("foam.roundtrip.one_node." + nm, "foam_h.c", "h_rt_node", RT_FNS, ["v"], cls="B", bound="one node, " + txt,
+          defs=["-DV_TAG=" + tag, "-DV_DOM(v)=" + dom], cbmc=OB, timeout=600, assumed=SR_ASS[:1])
+    J("canary.foam.roundtrip.one_node.HInt", "foam_h.c", "h_rt_node", RT_FNS, ["v"], kind="canary",
+      defs=["-DV_TAG=FOAM_HInt", "-DV_DOM(v)=((v)>=0&&(v)<=65535)", "-DCANARY_rtnode"], cbmc=OB, timeout=600)
     return js
